@@ -197,6 +197,11 @@ func yyInputs(r *Result) (srcs [][]byte, tags []string) {
 	for _, c := range regressionInputs("yy") {
 		add(c, "regression")
 	}
+	for _, pre := range []string{"\xef\xbb\xbf", "#!/usr/bin/env php\n", "<html>\n", "\xef\xbb\xbf#!/bin/php\n"} {
+		for _, code := range []string{"<?php echo 1;", "<?php\n$a = ;\n", "<?php foo(;\n$b = 1;", "<?php\nnamespace A;\nclass B {}\n", "<?= $x ?>\ntext"} {
+			add([]byte(pre+code), "prefixed")
+		}
+	}
 	for _, c := range heredocLookalikes() {
 		add(c, "heredoc-lookalike")
 	}
